@@ -334,6 +334,63 @@ pub fn main(args: &Args) -> ! {
         }
     }
     rep.part("spoofed_initials", json!({"cases": sres.len()}));
+    // after the handshake: a copy of a genuine client datagram arrives from another source address
+    // (same IP other port - what a NAT rebinding looks like - or another IP) that never answers;
+    // until that address is validated it gets no more than three times what came from it
+    {
+        let mut tasks = vec![];
+        for ipv4 in [true, false] {
+            for same_ip in [true, false] {
+                for step in [24u64, 30, 36, 45, 60, 80] {
+                    for silent in [false, true] {
+                        tasks.push((ipv4, same_ip, step, silent));
+                    }
+                }
+            }
+        }
+        let (res, capped) = e3(tasks, dl, |&(ipv4, same_ip, step, silent)| {
+            guarded(|| {
+                let mut cfg = cfg_by_name("default");
+                cfg.ipv4 = ipv4;
+                // the server is the bulk sender (60 kB towards the client), so it has plenty to send to
+                // whatever it believes the client's address to be
+                let (bulk, _) = crate::scen::plans(Wl::W6, ReadMode::default());
+                let mut p = crate::scen::std_pair_plans(base, &cfg, crate::app::Plan::default(), bulk);
+                let genuine = p.w.nodes[CLIENT].addr;
+                let fake = if same_ip { std::net::SocketAddr::new(genuine.ip(), genuine.port() + 7) } else if ipv4 { crate::sim::addr4(9) } else { addr(9) };
+                let mut script = vec![(step, crate::scen::Op::SpoofedCopy(fake))];
+                if silent {
+                    script.push((step, crate::scen::Op::Blackhole(CLIENT)));
+                }
+                let _ = crate::scen::drive(&mut p, &script, 30_000, Duration::from_secs(20));
+                let (v, near) = amp_violations(&p);
+                let to_fake: u64 = p.w.recs.iter().map(|r| match r { Rec::Emit { node, dst, data, .. } if *node == SERVER && *dst == fake => data.len() as u64, _ => 0 }).sum();
+                (p.w.trace_hash(), v, near, to_fake)
+            })
+        });
+        rep.exhaustive &= !capped;
+        let mut reached = 0u64;
+        for ((ipv4, same_ip, step, silent), r) in &res {
+            rep.evaluations += 1;
+            let rj = json!({"check":"c07","kind":"spoofed-rebinding","ipv4":ipv4,"same_ip":same_ip,"step":step,"silent":silent});
+            match r {
+                Err(e) => rep.violation(Violation { signature: "panic".into(), what: format!("spoofed rebinding ipv4={ipv4} same_ip={same_ip} step={step}: panic: {e}"), replay: rj }),
+                Ok((tr, v, _, to_fake)) => {
+                    rep.distinct.insert(*tr);
+                    if *to_fake > 0 {
+                        reached += 1;
+                    }
+                    for (sig, what) in v {
+                        rep.violation(Violation { signature: format!("{sig}:new-path"), what: format!("spoofed source ({}{}) at step {step}, genuine client {}: {what}", if *ipv4 { "IPv4, " } else { "IPv6, " }, if *same_ip { "same IP other port" } else { "other IP" }, if *silent { "silent afterwards" } else { "carries on" }), replay: rj.clone() });
+                    }
+                }
+            }
+        }
+        rep.part("spoofed_rebinding", json!({"cases": res.len(), "server_sent_to_the_spoofed_address": reached, "capped": capped}));
+        if reached == 0 {
+            machinery("vacuity guard: the server never sent anything to a spoofed post-handshake address");
+        }
+    }
     // stateless resets and short initials: direct endpoint calls
     let cfg = cfg_by_name("default");
     let p0 = std_pair_pre(base, &cfg, Wl::W0, ReadMode::default(), |_| {});
